@@ -175,7 +175,7 @@ class Runner:
             return C.info, [rootarg], cwd
         if k == "infosf":
             args = ["-sf", w.cpath(tuple(op["S"]))]
-            if op.get("R") is not None:
+            if op.get("R") is not None and list(op["R"]) != ["-"]:
                 args.append(w.cpath(tuple(op["R"])))
             return C.info, args, cwd
         if k == "hash":
@@ -258,6 +258,8 @@ class Runner:
     def step(self, op):
         w, pj = self.w, self.pj
         w.pin_mtimes()
+        if self.spec["world"].get("touch"):
+            self.touch_some()
         pre_snap = w.snapshot()
         pre = {"disk": pj.disk(pre_snap), "hist": self.hist(pre_snap)}
         eff = self.effective_patterns(op, pj.histories(pre_snap))
@@ -268,6 +270,8 @@ class Runner:
         if op["op"] == "create":
             op.setdefault("n", False)
             op.setdefault("dr", False)
+        if op["op"] == "infosf" and op.get("R") is None:
+            op["R"] = ["-"]
         command, args, cwd = self.build(op)
         res = w.run(command, args, cwd=cwd)
         post_snap = w.snapshot()
@@ -313,6 +317,14 @@ class Runner:
             line["flat"] = self.flat_projection(post_snap)
         if k in ("info", "infosf", "hash"):
             line["stdout"] = res["out"]
+        if k == "info":
+            line["info"] = self.parse_info(res["out"], op)
+        if k == "infosf":
+            line["infosf"] = self.parse_infosf(res["out"])
+        if k == "hash":
+            mt = re.search(r" = (\S+)\s*$", res["out"])
+            fc = w.digest_table.get(mt.group(1)) if mt else None
+            line["hashed"] = {"f": fc[0], "c": fc[1]} if fc else {"f": "?", "c": "BAD"}
         if os.environ.get("VERIF_KEEP_TEXT"):
             line["stdout"], line["stderr"] = res["out"], res["err"]
         self.i += 1
@@ -333,12 +345,55 @@ class Runner:
                 g["pats"] = [abstract_pattern(w, p) for p in g.get("pats", [])]
                 info = self.geninfo.get(os.path.join(folder, g["name"])) if folder else None
                 g["croot"], g["ceff"] = info if info else (h["h"], [])
-                for k, dflt in (("files", []), ("dirs", []), ("refs", []), ("snap", []), ("proc", ""), ("xsd_ok", False), ("root", {"has": False, "fmts": [], "cok": [], "sok": []})):
+                for k, dflt in (("files", []), ("dirs", []), ("refs", []), ("snap", []), ("proc", ""), ("cdate", ""), ("xsd_ok", False), ("root", {"has": False, "fmts": [], "cok": [], "sok": []})):
                     g.setdefault(k, dflt)
                 gens.append(g)
             h["gens"] = gens
             out.append(h)
         return out
+
+    def touch_some(self):
+        """pure timestamp changes: bump the mtime of a seeded random subset of media files / directories"""
+        import random
+
+        w = self.w
+        rnd = random.Random("%s-%d" % (self.tid, self.i))
+        for dp, dn, fn in os.walk(w.root):
+            if "ascmhl" in dp.split(os.sep):
+                continue
+            for n in fn + [d for d in dn if d != "ascmhl"]:
+                if rnd.random() < 0.5:
+                    t = W.PIN_MTIME + rnd.randint(1, 10**6)
+                    os.utime(os.path.join(dp, n), (t, t))
+
+    def parse_info(self, out, op):
+        """info ROOT -> [{h: abstract root of the listed history, ns: [...], dates: [...]}]"""
+        w = self.w
+        res = []
+        cur = None
+        for ln in out.splitlines():
+            mt = re.match(r"^Info with history at path: (.*)$", ln)
+            mc = re.match(r"^Child History at (.*):$", ln)
+            mg = re.match(r"^  Generation (\d+) \((.*)\)\s*$", ln)
+            if mt or mc:
+                path = os.path.normpath((mt or mc).group(1))
+                rel = os.path.relpath(path, w.root).replace(os.sep, "/")
+                cur = {"h": list(w.apath_of_rel(rel)), "ns": [], "dates": []}
+                res.append(cur)
+            elif mg and cur is not None:
+                cur["ns"].append(int(mg.group(1)))
+                cur["dates"].append(mg.group(2))
+        return [r for r in res if r["ns"]]
+
+    def parse_infosf(self, out):
+        w = self.w
+        res = []
+        for ln in out.splitlines():
+            mg = re.match(r"^  Generation (\d+) \((.*)\) (\S+): (\S+) \((\S*)\)\s*$", ln)
+            if mg:
+                fc = w.digest_table.get(mg.group(4))
+                res.append({"n": int(mg.group(1)), "date": mg.group(2), "f": mg.group(3), "c": fc[1] if fc and fc[0] == mg.group(3) else "BAD", "a": mg.group(5)})
+        return res
 
     def describe(self, p):
         """concrete path -> stable description relative to world base: [area, abstract-ish rel]"""
